@@ -41,6 +41,10 @@ BASE = {
     "k1": [[2.0**20], [2.0**20 + 0.25], [2.0**20 + 0.5], [2.0**20 + 3], [2.0**20 + 3.5]],
     "m2": [[0, 0], [0.125, 0.5], [0.5, 0.125], [0.375, 0.375], [0.75, 0.5], [0.625, 0.75], [0.25, 0.125]],
     "n2": [[v * 2.0**-12 for v in r] for r in [[0, 0], [0.125, 0.5], [0.5, 0.125], [0.375, 0.375], [0.75, 0.5], [0.625, 0.75], [0.25, 0.125], [3, 3], [3.25, 2.5]]],
+    # two consecutive iterations with equal cluster sizes but different assignments (one sample moves each way)
+    "s2a": [[5, 8], [6, 9], [10, 6], [11, 6], [0, 7], [2, 11], [10, 3]],
+    "s2b": [[0, 3], [1, 8], [11, 3], [0, 10], [2, 11], [11, 8], [7, 9], [10, 5]],
+    "s2c": [[7, 11], [11, 10], [5, 0], [9, 10], [7, 0], [6, 6], [5, 1]],
     "i3": [[0, 0, 1], [1, 0, 1], [0, 2, 1], [8, 8, 1], [9, 8, 1], [8, 10, 1.5], [30, 0, 1]],
 }
 QUICK_SETS = ["a1", "b1", "d1", "e2", "f2", "h2", "j2", "k1", "m2", "n2"]
@@ -86,6 +90,11 @@ def cases(tier, seed):
             for rs in ((0, 3) if tier == "quick" else (0, 1, 2, 3, 7)):
                 for kind in kinds[:2] if tier == "quick" else kinds[:4]:
                     out.append(dict(data=name, seed=seed, K=K, init="random", rs=rs, kind=kind, tier=tier))
+        if name in ("a1", "e2"):
+            for sname in ("s2a", "s2b", "s2c"):
+                Xs = _data(sname, seed)
+                for kind in ["np", (3, len(Xs) - 3)]:
+                    out.append(dict(data=sname, seed=seed, K=2, init=[Xs[0], Xs[1]], kind=kind, tier=tier))
         # k-means|| is slow (0.2-0.5 s per initialisation): a handful per data set
         for K in (2,) if tier == "quick" else (2, 3):
             for kind in ["np"] if tier == "quick" else ["np", (n // 2, n - n // 2)]:
@@ -106,8 +115,25 @@ def _mk(X, kind):
     return da.from_array(A, chunks=(tuple(kind), (A.shape[1],)))
 
 
+_ITER = [0]
+
+
+def _counting_m_step(*a, **k):
+    _ITER[0] += 1
+    return _ORIG_M_STEP[0](*a, **k)
+
+
+_ORIG_M_STEP = [None]
+
+
 def _fit(case, X, init, cap, thr):
     from bob.learn.em import KMeansMachine
+    from bob.learn.em import kmeans as _km
+
+    if hasattr(_km, "m_step") and _km.m_step is not _counting_m_step:
+        _ORIG_M_STEP[0] = _km.m_step
+        _km.m_step = _counting_m_step  # fit() looks m_step up as a module global: one call per iteration
+    _ITER[0] = 0
 
     if isinstance(init, str):
         m = KMeansMachine(case["K"], init_method=init, random_state=case["rs"], max_iter=cap, convergence_threshold=thr)
@@ -211,6 +237,14 @@ def run_case(case):
             c.check(hit, "tie_break", lambda: f"centroids after one iteration with an exact assignment tie {got.tolist()} are not the cluster means of any admissible tie-break", tags)
             c.close(float(m.average_min_distance), float(crit[1]), "criterion", "criterion of the first iteration (independent of the tie-break)", tags, scale=scale)
             c.count("tie_first_step_checked")
+    # calibration of the iteration counter: it is only trusted if an unthresholded run with cap 3 shows exactly 3 calls
+    # (a refactoring that calls m_step differently must not turn into an alarm)
+    counter_ok = False
+    if _ORIG_M_STEP[0] is not None and not is_dask and not isinstance(init, str):
+        _fit(case, X, C0, 3, None)
+        counter_ok = _ITER[0] == 3
+        if not counter_ok:
+            c.count("iteration_counter_uncalibrated")
     # (2) stopping rule
     fired = False
     for cap in caps:
@@ -224,8 +258,8 @@ def run_case(case):
                 if a0 == 0:
                     continue  # relative change undefined (0/0): the model no longer moves, any stopping point is the same model
                 rel = abs(a0 - a1) / a0
-                if abs(float(rel) - thr) <= 1e-9 * max(1.0, thr):
-                    near = True
+                if rel != F(thr) and abs(float(rel) - thr) <= 1e-9 * max(1.0, thr):
+                    near = True  # ambiguous in floating point; an exact equality (e.g. 0 at a fixed point with thr = 0) is a definite stop
                 if rel <= F(thr):
                     stop = j
                     break
@@ -243,6 +277,8 @@ def run_case(case):
                     f"cap={cap} thr={thr}: model must be the one after {stop} iterations", tags, scale=big)
             c.close(float(m.average_min_distance), float(crit[stop]), "stop_criterion",
                     f"cap={cap} thr={thr}: criterion must be that of iteration {stop}", tags, scale=scale)
+            if counter_ok:
+                c.check(_ITER[0] == stop, "iteration_count", f"cap={cap} thr={thr}: {_ITER[0]} iterations were run, the stopping rule says {stop}", tags)
             if thr in (0.1, 1e-3) and not c.viol:
                 # history: fitting the same machine object again must give the same model (no state carried over)
                 m.fit(_mk(X, case["kind"]))
@@ -251,6 +287,36 @@ def run_case(case):
                         f"cap={cap} thr={thr}: second fit of the same object must again stop after {stop} iterations", tags, scale=big)
                 c.close(float(m.average_min_distance), float(crit[stop]), "refit_criterion",
                         f"cap={cap} thr={thr}: criterion after a second fit of the same object", tags, scale=scale)
+    # no iteration cap: the stopping rule alone ends the training (a run that never stops hits the case horizon)
+    if bad_from is None and not is_dask and not isinstance(init, str):
+        ext = list(traj)
+        ecrit = list(crit)
+        for j in range(kmax + 1, 16):
+            st = ok.lloyd_step(Xf, ext[-1])
+            if st["tie"] or st["empty"]:
+                break
+            ext.append(st["new"])
+            ecrit.append(st["crit"])
+        for thr in (0.0, 1e-3):
+            stop = None
+            for j in range(2, len(ext)):
+                a0, a1 = ecrit[j - 1], ecrit[j]
+                if a0 == 0:
+                    break
+                rel = abs(a0 - a1) / a0
+                if rel != F(thr) and abs(float(rel) - thr) <= 1e-9 * max(1.0, thr):
+                    break
+                if rel <= F(thr):
+                    stop = j
+                    break
+            if stop is None:
+                continue
+            m = _fit(case, X, C0, None, thr)
+            c.transitions += 1
+            c.close(m.centroids_, np.array(ok.fl(ext[stop])), "no_cap_stop", f"max_iter=None thr={thr}: model must be the one after {stop} iterations", tags, scale=big)
+            if counter_ok:
+                c.check(_ITER[0] == stop, "iteration_count", f"max_iter=None thr={thr}: {_ITER[0]} iterations were run, the stopping rule says {stop}", tags)
+            c.count("no_cap_runs")
     c.traces = c.transitions
     nontrivial = (changed or fired) and bad_from is None
     sig = "%s|%d|%s|%s" % (case["data"], case["K"], init if isinstance(init, str) else repr(init), case["kind"])
